@@ -89,7 +89,7 @@ def handle (op : String) (req : Json) : R Json := do
                 ("cov", jRat (cov xs ys)), ("var_x", jRat (var xs)), ("var_y", jRat (var ys)),
                 ("mean_xy", jRat (mean (mulL xs ys))), ("mean_x", jRat (mean xs)), ("mean_y", jRat (mean ys)),
                 ("steps", jList (fun (s : ProbStep) =>
-                    jObj [("cov", jRat s.cov), ("var_y", jRat s.vy), ("gt", jBool s.gt)]) steps),
+                    jObj [("cov", jRat s.cov), ("var_y", jRat s.vy), ("gt", jBool s.gt), ("same", jBool s.same)]) steps),
                 ("p", jRat (pearsonProbability x y mask b part sigmas))])
   | _ => throw s!"unknown op {op}"
 
